@@ -20,6 +20,8 @@ Decided (DESIGN.md C24):
  (g) K8-tables    PROTECTED_MOD_PRES ⊇ PROTECTED_MOD_REM, PRES \\ REM = {Recycled}, LOCKED ⊇ {Tombstone}, each table ⊇ its content on the
                   pinned tree (evaluated from the statics' HIR initialisers); the combiners strip the PRES/REM tables from the allowed
                   class sets and the protected filters deny on PROTECTED_ENTRY_CLASSES.
+ (h) K5-profile-fields  every field of AccessControlCreate / AccessControlModify / AccessControlProfile is parsed from its own stored attribute; the two class
+                  lists fall back to acp_modify_class only (lib/x_fields.py).
 Not decided: grant arithmetic over arbitrary profile sets (receiver/target matching, union of grants) against a reference model.
 """
 from .lib.hir import *
